@@ -5,7 +5,7 @@ never call this."""
 import json, glob, sys, collections
 prop = sys.argv[1]; margin = float(sys.argv[2]) if len(sys.argv) > 2 else 8.0
 obs = collections.defaultdict(float)
-for f in glob.glob("/verif/.cache/calib/%s_*_over.json" % prop):
+for f in glob.glob("/verif/.cache/calib_official/%s_*_over.json" % prop):
     for e, g, sc, item, tb, gb, v in json.load(open(f)):
         k = (g, sc, e, item, tb, gb); obs[k] = max(obs[k], v)
 env = {}
